@@ -11,7 +11,7 @@ use crate::oracle::v2::{NEED, SIG};
 pub fn gen_port(t: &mut Tape) -> u16 {
     match t.weighted(&[3, 2, 5]) {
         0 => *t.pick(&[80u16, 443, 8080, 1, 12345]),
-        1 => *t.pick(&[0u16, 1, 9, 10, 99, 100, 999, 1000, 9999, 10000, 65534, 65535, 256, 255]),
+        1 => *t.pick(&[0u16, 1, 9, 10, 99, 100, 999, 1000, 9999, 10000, 65534, 65535, 256, 255, 0x5000, 0xbb01, 0x901f, 0xfb20, 0x0150, 0x1600, 0x3500, 22, 53, 1023, 1024, 336, 20480]),
         _ => t.u16(),
     }
 }
@@ -115,8 +115,36 @@ pub fn gen_v6_pair(t: &mut Tape) -> ([u16; 8], [u16; 8]) {
     if !t.chance(1, 5) {
         return (a, gen_v6(t));
     }
-    match t.below(4) {
+    match t.below(5) {
         0 => (a, a),
+        4 => {
+            // interface identifiers with a structure of their own on one link (shared /64) or on two: ISATAP (0000:5efe or
+            // 0200:5efe followed by an IPv4 address), modified EUI-64 (..ff:fe..), all-zero / ::1 / ::2 hosts
+            let mut x = a;
+            let mut y = if t.chance(3, 4) { a } else { gen_v6(t) };
+            for (i, v) in [&mut x, &mut y].into_iter().enumerate() {
+                match t.weighted(&[5, 2, 1]) {
+                    0 => {
+                        v[4] = if t.coin() { 0 } else { 0x0200 };
+                        v[5] = 0x5efe;
+                        let q = gen_v4(t);
+                        v[6] = u16::from_be_bytes([q[0], q[1]]);
+                        v[7] = u16::from_be_bytes([q[2], q[3]]);
+                    }
+                    1 => {
+                        v[5] = (v[5] & 0xff00) | 0x00ff;
+                        v[6] = 0xfe00 | (v[6] & 0x00ff);
+                    }
+                    _ => {
+                        v[4] = 0;
+                        v[5] = 0;
+                        v[6] = 0;
+                        v[7] = 1 + i as u16;
+                    }
+                }
+            }
+            (x, y)
+        }
         1 => {
             let k = 1 + t.below(7) as usize;
             let mut b = a;
@@ -445,7 +473,7 @@ pub fn corrupt_port_text(t: &mut Tape, valid: &str) -> Vec<u8> {
         }
         0 => {
             let k = t.below(n as u32) as usize;
-            s[k] = *t.pick(&[b'x', b'o', b'-', b'.', b'a', b'+', b'_']);
+            s[k] = *t.pick(&[b'x', b'o', b'-', b'.', b'a', b'+', b'_', b':', b';', b'<', b'=', b'>', b'?', b'/', b'@', b'`', 0x10, 0x19, b'p', b'y', b'P', b'Y']);
         }
         1 => {
             let k = t.below(n as u32 + 1) as usize;
@@ -815,6 +843,8 @@ pub fn gen_valid_line(t: &mut Tape, ascii_only: bool) -> Vec<u8> {
 pub const BAD_PORTS: &[&str] = &[
     "+1", "-1", "+0", "-0", "-00", "-000", "+65535", "0_0", "1_000", "0b1", "0o7", "४", "۴", "00", "01", "080", "0000", "65536", "99999", "100000", "655350", "", "x", "8o", "1x", "x1", "1.0",
     "0x50", "1e3", "123456789012345678901", "\u{0661}", "1\t", "\t1", "1\n", "\u{ff11}", "٣", "4294967297", "18446744073709551617",
+    // the six characters right behind '9' (a nibble test takes them for digits), right in front of '0', other "numeric" characters
+    "44:", "4:4", ":44", "8;", "1<2", "=1", "9>", "?0", "4/", "/4", "\u{663}4", "4\u{663}", "\u{b2}", "1\u{b2}", "\u{bd}", "\u{2460}", "\u{ff11}\u{ff12}", "\u{2074}43", "4\u{0967}", "\u{1d7d8}",
 ];
 pub const BAD_V4: &[&str] = &[
     "256.1.1.1", "1.1.1.256", "01.1.1.1", "010.000.000.001", "127.000.000.001", "001.002.003.004", "192.168.001.001", "255.255.255.0255", "1.1.1.01", "1.1.1", "1.1.1.1.1", "1..1.1", ".1.1.1", "1.1.1.", "", "::1", "1.1.1.1a", "a.b.c.d",
@@ -885,7 +915,7 @@ pub fn gen_v1_mutant(t: &mut Tape) -> (Vec<u8>, &'static str) {
                 corrupt_word(t, &w)
             } else if t.chance(1, 3) {
                 // another family's keyword, or a datagram one, in front of this line's fields
-                t.pick(&["UDP4", "UDP6", "TCP4", "TCP6", "UNKNOWN", "SCTP4", "UNIX"]).as_bytes().to_vec()
+                t.pick(&["UDP4", "UDP6", "TCP4", "TCP6", "UNKNOWN", "SCTP4", "UNIX", "UNSPEC", "INET", "INET6", "STREAM", "DGRAM", "LOCAL", "PROXY", "AF_INET", "AF_UNSPEC", "UNIX4", "TCP46", "IPV4", "IPV6", "NONE", "UNSPECIFIED", "QUIC4", "QUIC6"]).as_bytes().to_vec()
             } else {
                 t.pick(&["tcp4", "TCP", "TCP5", "TCP44", "TCP4x", "unknown", "UNKNOW", "UNKNOWNN", "", "TCP6\0", "UDP4", "TCP 4", "T", "U", "Tcp6"]).as_bytes().to_vec()
             };
@@ -1363,7 +1393,29 @@ pub fn gen_addr_block(t: &mut Tape, fam: u8) -> Vec<u8> {
         _ => {
             let mut b = Vec::new();
             for _ in 0..2 {
-                let mut path = match t.weighted(&[2, 4, 2, 1, 1, 1, 2, 2]) {
+                let mut path = match t.weighted(&[2, 4, 2, 1, 1, 1, 2, 2, 1, 1]) {
+                    // text that fills all 108 bytes and is cut inside a multi-byte character (sun_path is cut by bytes); the same
+                    // with the cut character in front of a terminator
+                    8 => {
+                        let ch = *t.pick(&["\u{e9}", "\u{20ac}", "\u{1f600}", "\u{65e5}"]);
+                        let keep = 1 + t.below(ch.len() as u32 - 1) as usize;
+                        let head = if t.coin() { "/var/run/" } else { "\0app/" };
+                        let mut p = head.as_bytes().to_vec();
+                        let body = 108 - p.len() - keep - if t.chance(1, 4) { 1 + t.below(8) as usize } else { 0 };
+                        while p.len() < head.len() + body {
+                            p.push(b'a' + (p.len() % 26) as u8);
+                        }
+                        p.extend_from_slice(&ch.as_bytes()[..keep]);
+                        p.resize(108, 0);
+                        p
+                    }
+                    // names from other systems: a drive letter and backslashes, a UNC-like name, a path with a space, percent
+                    // escapes, a trailing slash, dot segments
+                    9 => {
+                        let mut p = t.pick(&["C:\\ProgramData\\app\\proxy.sock", "c:\\temp\\s", "D:\\", "\\\\.\\pipe\\haproxy", "/var/run/my app.sock", "/run/%2e%2e/x.sock", "/run/app/", "/run/../run/./x.sock", "//run//x.sock", "./x.sock", "~/x.sock"]).as_bytes().to_vec();
+                        p.resize(108, 0);
+                        p
+                    }
                     // a pathname, its NUL terminator, and stale bytes behind it (what a C sender leaves in sun_path)
                     7 => {
                         let mut p = format!("/run/app-{}.sock", t.below(100)).into_bytes();
@@ -1418,6 +1470,11 @@ pub fn gen_addr_block(t: &mut Tape, fam: u8) -> Vec<u8> {
                 };
                 path.truncate(108);
                 b.extend_from_slice(&path);
+            }
+            // both ends the same socket (a connection of a process to itself; a listener's own name on both sides)
+            if t.chance(1, 6) {
+                let (a, z) = b.split_at_mut(108);
+                z.copy_from_slice(a);
             }
             b
         }
@@ -1615,9 +1672,33 @@ pub fn enc_tlv_list(list: &[(u8, Vec<u8>)]) -> Vec<u8> {
     out
 }
 
+/// Pipelined data right behind whole items: the next header's signature (alone, with a fixed part, with a complete header), a
+/// v1 line, a part of the signature - exactly on an item boundary.
+pub fn items_then_next_header(t: &mut Tape, room: usize) -> Vec<u8> {
+    let list = gen_tlv_list(t, room.saturating_sub(40).min(200));
+            let mut s = enc_tlv_list(&list);
+            match t.below(5) {
+                0 => s.extend_from_slice(&crate::oracle::v2::SIG),
+                1 => {
+                    s.extend_from_slice(&crate::oracle::v2::SIG);
+                    s.extend_from_slice(&[0x21, 0x11, 0x00, 0x0c]);
+                    s.extend_from_slice(&[192, 0, 2, 1, 198, 51, 100, 7, 0xc8, 0x22, 0x01, 0xbb]);
+                }
+                2 => {
+                    s.extend_from_slice(&crate::oracle::v2::SIG);
+                    s.extend_from_slice(&[0x20, 0x00, 0x00, 0x00]);
+                }
+                3 => s.extend_from_slice(b"PROXY TCP4 192.0.2.1 198.51.100.7 51234 443\r\n"),
+                _ => s.extend_from_slice(&crate::oracle::v2::SIG[..t.usize_in(3, 11)]),
+            }
+            s.truncate(room);
+    s
+}
+
 /// TLV section bytes of one of the classes empty / well-formed / truncated / random.
 pub fn gen_tlv_section(t: &mut Tape, room: usize) -> (Vec<u8>, &'static str) {
-    match t.weighted(&[8, 20, 8, 8, 2, 2, 1, 1]) {
+    match t.weighted(&[8, 20, 8, 8, 2, 2, 1, 1, 1]) {
+        8 => (items_then_next_header(t, room), "tlv-items-then-next-header"),
         7 => {
             // alignment padding (1..=8 zero bytes, 4 favoured) in front of a well-formed list, or between its items
             let list = gen_tlv_list(t, room.saturating_sub(8));
@@ -1962,7 +2043,21 @@ pub fn gen_v2_mutant(t: &mut Tape) -> (Vec<u8>, &'static str) {
 pub fn gen_related(t: &mut Tape, x: &[u8]) -> Vec<u8> {
     let mut y = x.to_vec();
     let cr = y.iter().position(|&b| b == b'\r');
-    match t.below(21) {
+    match t.below(23) {
+        21 | 22 => {
+            // the same characters with one separator moved by one place: the first character of a field joins the field in
+            // front of it (`1.2.3.4 15.6.7.8` -> `1.2.3.41 5.6.7.8`), or the last one joins the field behind it
+            let end = cr.unwrap_or(y.len());
+            let blanks: Vec<usize> = (1..end.saturating_sub(1)).filter(|&k| y[k] == b' ' && y[k - 1] != b' ' && y[k + 1] != b' ').collect();
+            if !blanks.is_empty() {
+                let k = blanks[t.below(blanks.len() as u32) as usize];
+                if t.coin() {
+                    y.swap(k, k + 1);
+                } else {
+                    y.swap(k - 1, k);
+                }
+            }
+        }
         20 => {
             // another protocol keyword in front of the very same text (TCP4 <-> TCP6 <-> UNKNOWN)
             if y.starts_with(b"PROXY ") {
